@@ -55,6 +55,7 @@ class Recorder:
         self.engine_steps = 0
         self.origin_changed_steps = [0, 0]
         self.trace = []          # schedule actually executed
+        self.spell_roots = True
 
     def fresh(self):
         t = self.next_tag
@@ -62,7 +63,11 @@ class Recorder:
         return t
 
     def abs(self, side, rel):
-        return self.w.roots[side] + rel
+        root = self.w.roots[side]
+        if not self.w.provs[side].case_sensitive and not self.w.provs[side].oid_is_path and self.spell_roots:
+            # a case-insensitive account: users may spell the root folder in any case
+            root = self.rng.choice([root, root.upper(), root.title(), root])
+        return root + rel
 
     def engine(self, which, watch_side=None):
         before = self.w.tree(watch_side) if watch_side is not None else None
@@ -122,7 +127,7 @@ class Recorder:
                 cands = [parent + "/" + n for n in NAMES]
             cands = [c for c in cands if c not in t]
             return rng.choice(cands) if cands else None
-        kinds = kinds or ["create", "create", "write", "write", "rename", "move", "delete", "mkdir", "rmdir", "dirrename"]
+        kinds = kinds or ["create", "create", "write", "write", "rename", "move", "delete", "mkdir", "rmdir", "dirrename", "caserename"]
         for _ in range(8):
             k = rng.choice(kinds)
             if k == "create":
@@ -163,6 +168,11 @@ class Recorder:
                 n = new_name(par)
                 if n and not n.startswith(f + "/"):
                     return self.user(side, "rename", f, n)
+            elif k == "caserename" and (files or dirs) and not self.w.provs[0].case_sensitive and not self.w.provs[1].case_sensitive:
+                x = rng.choice(files + dirs)
+                head, leaf = x.rsplit("/", 1)
+                if leaf.swapcase() != leaf:
+                    return self.user(side, "rename", x, head + "/" + leaf.swapcase())
             elif k == "dirrename" and dirs:
                 d = rng.choice(dirs)
                 par = rng.choice(parents) if parents else ""
@@ -198,9 +208,11 @@ class Recorder:
 
 def build_base(rec, n_ops, side=None):
     """a synchronised base tree: random creations on one or both sides, then quiesce; returns True if converged"""
+    # a base is built from one side only: concurrent file-vs-folder name clashes are a known weak spot of the pinned engine
+    if side is None:
+        side = rec.rng.randint(0, 1)
     for _ in range(n_ops):
-        s = rec.rng.randint(0, 1) if side is None else side
-        rec.random_op(s, kinds=["create", "create", "mkdir", "create", "mkdir"])
+        rec.random_op(side, kinds=["create", "create", "mkdir", "create", "mkdir"])
     ok = rec.quiesce()
     return ok and trees_converged(rec.w.tree(0), rec.w.tree(1), fold_case=rec.w.flavour.endswith("-ci"))
 
